@@ -13,11 +13,16 @@ Definition coin_type (t : atx) : Prop := user_type t /\ t_type t <> TBound.
 Definition nsum (l : list N) : N := fold_left N.add l 0.
 
 (* what the property demands of one accepted user transaction *)
-Record SpendOK (t : atx) : Prop := {
+(* inside the retention window: the output can still be spent in the next block
+   (the outputs of block b are rebroadcast or collected by block b + genesis_period + 1) *)
+Definition in_window (e : env) (s : aslip) : Prop := e_next e <= sl_bid s + e_gp e.
+
+Record SpendOK (e : env) (t : atx) : Prop := {
   so_signed : t_sig_ok t = true;
   so_nonempty : t_from t <> [];
   so_spendable : forall s, In s (t_from t) -> value_input s = true -> sl_spendable s = true;
   so_owned : forall s, In s (t_from t) -> value_input s = true -> sl_pk s = signer t;
+  so_window : forall s, In s (t_from t) -> value_input s = true -> in_window e s;
   so_nodup : NoDup (value_keys t);
   so_no_inflation : nsum (map counted (t_from t)) < U64MAX ->
                     nsum (map counted (t_to t)) <= nsum (map counted (t_from t))
@@ -25,10 +30,11 @@ Record SpendOK (t : atx) : Prop := {
 
 (* SpendOK without the ownership conjunct: what validation establishes for every
    user transaction, Bound ones included *)
-Record SpendOK_but_owner (t : atx) : Prop := {
+Record SpendOK_but_owner (e : env) (t : atx) : Prop := {
   sb_signed : t_sig_ok t = true;
   sb_nonempty : t_from t <> [];
   sb_spendable : forall s, In s (t_from t) -> value_input s = true -> sl_spendable s = true;
+  sb_window : forall s, In s (t_from t) -> value_input s = true -> in_window e s;
   sb_nodup : NoDup (value_keys t);
   sb_no_inflation : nsum (map counted (t_from t)) < U64MAX ->
                     nsum (map counted (t_to t)) <= nsum (map counted (t_from t))
@@ -107,6 +113,7 @@ Qed.
 Lemma common_inv e t :
   user_type t -> common_checks e t = Valid ->
   t_from t <> [] /\ t_sig_ok t = true /\ (total_in t <? total_out t) = false
+  /\ age_check (e_gp e) (e_next e) (t_from t) = true
   /\ (t_type t <> TBound -> all_owned t = true /\ tail_checks t = Valid
                             /\ has_bound (t_from t) = false /\ has_bound (t_to t) = false)
   /\ (t_type t = TBound -> bound_checks e t = Valid).
@@ -117,17 +124,32 @@ Proof.
   destruct (t_has_hash t); cbn [negb] in H; [|discriminate].
   destruct (t_sig_ok t); cbn [negb] in H; [|discriminate].
   destruct (t_type t =? TBound) eqn:Hb; cbn [negb andb] in H.
-  - destruct (t_path_ok t); cbn [negb] in H; [|discriminate].
-    destruct (total_in t <? total_out t); [discriminate|].
-    apply N.eqb_eq in Hb. split; [congruence|]. split; [reflexivity|]. split; [reflexivity|].
-    split; [intros Hn; congruence|intros _; exact H].
-  - destruct (all_owned t); cbn [negb] in H; [|discriminate].
+  - destruct (age_check (e_gp e) (e_next e) (s0 :: rest)) eqn:Hage; cbn [negb] in H; [|discriminate].
+    unfold common_tail in H. rewrite Hatr, Hiss, Hb in H. cbn [negb andb] in H.
     destruct (t_path_ok t); cbn [negb] in H; [|discriminate].
     destruct (total_in t <? total_out t); [discriminate|].
+    apply N.eqb_eq in Hb. split; [congruence|]. split; [reflexivity|]. split; [reflexivity|].
+    split; [reflexivity|].
+    split; [intros Hn; congruence|intros _; exact H].
+  - destruct (all_owned t); cbn [negb] in H; [|discriminate].
+    destruct (age_check (e_gp e) (e_next e) (s0 :: rest)) eqn:Hage; cbn [negb] in H; [|discriminate].
+    unfold common_tail in H. rewrite Hatr, Hiss, Hb in H. cbn [negb andb] in H.
+    destruct (t_path_ok t); cbn [negb] in H; [|discriminate].
+    destruct (total_in t <? total_out t); [discriminate|].
+    rewrite Hfrom in H.
     destruct (has_bound (s0 :: rest)) eqn:Hb1; [discriminate|].
     destruct (has_bound (t_to t)) eqn:Hb2; [discriminate|]. cbn [orb] in H.
     apply N.eqb_neq in Hb. split; [congruence|]. split; [reflexivity|]. split; [reflexivity|].
+    split; [reflexivity|].
     split; [intros _; repeat split; auto|intros Hn; congruence].
+Qed.
+
+Lemma age_check_window gp next l : age_check gp next l = true ->
+  forall s, In s l -> value_input s = true -> next <= sl_bid s + gp.
+Proof.
+  intros H s Hin Hv. unfold age_check in H.
+  pose proof (forallb_In _ _ _ H Hin) as Hs. cbn beta in Hs. rewrite Hv in Hs. cbn [andb] in Hs.
+  apply negb_true_iff in Hs. apply N.ltb_ge in Hs. unfold sat_add in Hs. lia.
 Qed.
 
 Lemma valid_inv e t :
@@ -169,33 +191,34 @@ Qed.
 
 (* every accepted user transaction, Bound ones included *)
 Lemma valid_user_but_owner e t :
-  user_type t -> tx_validate e t = Valid -> SpendOK_but_owner t.
+  user_type t -> tx_validate e t = Valid -> SpendOK_but_owner e t.
 Proof.
   intros Hu H. destruct (valid_inv e t Hu H) as (Hnd & Hc & _).
-  destruct (common_inv e t Hu Hc) as (Hne & Hsig & Htot & Hnb & Hb).
+  destruct (common_inv e t Hu Hc) as (Hne & Hsig & Htot & Hage & Hnb & Hb).
   assert (Htail : tail_checks t = Valid).
   { destruct (N.eq_dec (t_type t) TBound) as [Hty|Hty].
     - now destruct (bound_checks_inv e t (Hb Hty)).
     - now destruct (Hnb Hty) as (_ & Ht & _). }
   constructor; auto.
   - now apply spendable_of_tail.
+  - intros s Hin Hv. exact (age_check_window _ _ _ Hage s Hin Hv).
   - now apply nodupb_NoDup.
   - intros Hlt. now apply no_inflation.
 Qed.
 
-Lemma spendok_of_parts t :
-  SpendOK_but_owner t -> all_owned t = true -> SpendOK t.
+Lemma spendok_of_parts e t :
+  SpendOK_but_owner e t -> all_owned t = true -> SpendOK e t.
 Proof.
-  intros [H1 H2 H3 H4 H5] Hown. constructor; auto. now apply owned_of_all_owned.
+  intros [H1 H2 H3 H4 H5 H6] Hown. constructor; auto. now apply owned_of_all_owned.
 Qed.
 
 (* every accepted user transaction that is not Bound-typed: BlockStake included *)
 Lemma valid_user_spendok e t :
-  coin_type t -> tx_validate e t = Valid -> SpendOK t.
+  coin_type t -> tx_validate e t = Valid -> SpendOK e t.
 Proof.
   intros [Hu Hnb] H. apply spendok_of_parts; [now apply (valid_user_but_owner e)|].
   destruct (valid_inv e t Hu H) as (_ & Hc & _).
-  destruct (common_inv e t Hu Hc) as (_ & _ & _ & Hx & _). now destruct (Hx Hnb).
+  destruct (common_inv e t Hu Hc) as (_ & _ & _ & _ & Hx & _). now destruct (Hx Hnb).
 Qed.
 
 (* the class of transactions for which the ownership conjunct fails on the code as
@@ -203,13 +226,13 @@ Qed.
 Definition Known_bound_foreign (t : atx) : Prop := t_type t = TBound /\ all_owned t = false.
 
 Lemma valid_user_spendok_guarded e t :
-  user_type t -> ~ Known_bound_foreign t -> tx_validate e t = Valid -> SpendOK t.
+  user_type t -> ~ Known_bound_foreign t -> tx_validate e t = Valid -> SpendOK e t.
 Proof.
   intros Hu Hk H. apply spendok_of_parts; [now apply (valid_user_but_owner e)|].
   destruct (N.eq_dec (t_type t) TBound) as [Hty|Hty].
   - destruct (all_owned t) eqn:Ho; [reflexivity|]. exfalso. apply Hk. split; auto.
   - destruct (valid_inv e t Hu H) as (_ & Hc & _).
-    destruct (common_inv e t Hu Hc) as (_ & _ & _ & Hx & _). now destruct (Hx Hty).
+    destruct (common_inv e t Hu Hc) as (_ & _ & _ & _ & Hx & _). now destruct (Hx Hty).
 Qed.
 
 (* ---------- BlockStake ---------- *)
@@ -258,7 +281,7 @@ Proof.
 Qed.
 
 Lemma valid_stake e t :
-  t_type t = TStake -> tx_validate e t = Valid -> SpendOK t /\ StakeOK e t.
+  t_type t = TStake -> tx_validate e t = Valid -> SpendOK e t /\ StakeOK e t.
 Proof.
   intros Hty H.
   assert (Hu : user_type t) by (unfold user_type; rewrite Hty; repeat split; discriminate).
@@ -296,7 +319,9 @@ Record CreateOK (t : atx) : Prop := {
              /\ sl_uuid_idx (tt t 2) = sl_idx s;
   co_outputs : sl_type (tt t 0) = SBound /\ sl_type (tt t 1) = SNormal
                /\ sl_type (tt t 2) = SBound /\ sl_amount (tt t 2) = 0
-               /\ 3 <= Nlen (t_to t)
+               /\ 3 <= Nlen (t_to t);
+  (* no Bound (or other) slips after the three NFT slips: nothing is minted on the side *)
+  co_rest : forall s, In s (skipn 3 (t_to t)) -> sl_type s = SNormal
 }.
 
 Ltac split_andb H :=
@@ -306,12 +331,12 @@ Ltac split_andb H :=
 
 Lemma valid_bound_create e t :
   t_type t = TBound -> is_new_nft t = true -> tx_validate e t = Valid ->
-  SpendOK t /\ CreateOK t.
+  SpendOK e t /\ CreateOK t.
 Proof.
   intros Hty Hnew H.
   assert (Hu : user_type t) by (unfold user_type; rewrite Hty; repeat split; discriminate).
   destruct (valid_inv e t Hu H) as (_ & Hc & _).
-  destruct (common_inv e t Hu Hc) as (_ & _ & _ & _ & Hb).
+  destruct (common_inv e t Hu Hc) as (_ & _ & _ & _ & _ & Hb).
   destruct (bound_checks_inv e t (Hb Hty)) as (_ & [[_ Hok]|[Hn _]]); [|congruence].
   unfold is_new_nft in Hnew. apply andb_true_iff in Hnew as [Hnew Hlen].
   apply andb_true_iff in Hnew as [Hone Hnorm].
@@ -326,6 +351,8 @@ Proof.
     constructor.
     + exists s. repeat split; auto; now apply N.eqb_eq.
     + repeat split; try now apply N.eqb_eq. now apply N.leb_le.
+    + match goal with Hx : forallb (fun s0 => sl_type s0 =? SNormal) (skipn 3 (t_to t)) = true |- _ =>
+        intros x Hx'; pose proof (forallb_In _ _ _ Hx Hx') as Hy; now apply N.eqb_eq in Hy end.
 Qed.
 
 (* a transfer of an existing NFT *)
@@ -362,13 +389,13 @@ Proof. intros H s Hin. pose proof (forallb_In _ _ _ H Hin) as Hs. now apply N.eq
 
 Lemma valid_bound_send e t :
   t_type t = TBound -> is_new_nft t = false -> tx_validate e t = Valid ->
-  SpendOK_but_owner t /\ SendOK e t.
+  SpendOK_but_owner e t /\ SendOK e t.
 Proof.
   intros Hty Hnew H.
   assert (Hu : user_type t) by (unfold user_type; rewrite Hty; repeat split; discriminate).
   split; [now apply (valid_user_but_owner e)|].
   destruct (valid_inv e t Hu H) as (_ & Hc & _).
-  destruct (common_inv e t Hu Hc) as (_ & _ & _ & _ & Hb).
+  destruct (common_inv e t Hu Hc) as (_ & _ & _ & _ & _ & Hb).
   destruct (bound_checks_inv e t (Hb Hty)) as (_ & [[Hn _]|(_ & Hsh & Hidx)]); [congruence|].
   unfold bound_send_shape in Hsh. split_andb Hsh.
   repeat match goal with Hx : negb _ = true |- _ => apply negb_true_iff in Hx end.
@@ -390,6 +417,7 @@ Lemma pool_gate_types e t : pool_gate e t = true ->
   t_type t <> TFee /\ t_type t <> TATR /\ t_type t <> TSPV /\ tx_validate e t = Valid.
 Proof.
   unfold pool_gate. intros H. apply andb_true_iff in H as [Ht Hv].
+  apply andb_true_iff in Ht as [Ht _].
   apply negb_true_iff in Ht. apply orb_false_iff in Ht as [Ht Hspv].
   apply orb_false_iff in Ht as [Hfee Hatr].
   apply N.eqb_neq in Hfee, Hatr, Hspv. repeat split; auto.
@@ -459,7 +487,7 @@ Lemma block_stake_tx e id txs :
   block_txs_ok e id txs = true -> e_stake_req e <> 0 -> 1 < id ->
   (e_ovf e = true \/ stake_count txs < 256) ->
   stake_count txs = 1 /\
-  forall t, In t txs -> t_type t = TStake -> SpendOK t /\ StakeOK e t.
+  forall t, In t txs -> t_type t = TStake -> SpendOK e t /\ StakeOK e t.
 Proof.
   intros H Hreq Hid Hovf. unfold block_txs_ok in H. apply andb_true_iff in H as [Hc Hs].
   split.
@@ -520,9 +548,10 @@ Lemma signature_does_not_bind_inputs e t t' :
   t_sig_ok t' = t_sig_ok t -> t_has_hash t' = t_has_hash t -> t_path_ok t' = t_path_ok t ->
   nodupb (value_keys t') = true ->
   forallb slip_validate (t_from t') = true ->
+  age_check (e_gp e) (e_next e) (t_from t') = true ->
   tx_validate e t = Valid -> tx_validate e t' = Valid.
 Proof.
-  intros Hns Hnb Hsc Hsig Hhash Hpath Hnd Hsp H.
+  intros Hns Hnb Hsc Hsig Hhash Hpath Hnd Hsp Hage H.
   unfold signed_content in Hsc. injection Hsc as Hty Hfrom Hto.
   apply N.eqb_neq in Hns, Hnb.
   assert (Hti : total_in t' = total_in t) by (unfold total_in; now rewrite !counted_view, Hfrom).
@@ -542,9 +571,16 @@ Proof.
   destruct (nodupb (value_keys t)); cbn [negb] in H; [|discriminate].
   destruct (t_type t =? TFee); [reflexivity|].
   destruct (t_type t =? TSPV).
-  { rewrite out_amounts_view, Hto, <- out_amounts_view, Htf. exact H. }
+  { rewrite out_amounts_view, Hto, <- out_amounts_view, Htf.
+    rewrite (out_amounts_view (t_from t')), Hfrom, <- out_amounts_view. exact H. }
   unfold common_checks in *. rewrite Hty, Hnb in *.
-  rewrite Hemp, Hhash, Hsig, Hpath, Hti, Hto', all_owned_view, Hfrom, <- all_owned_view.
+  rewrite Hemp, Hhash, Hsig, all_owned_view, Hfrom, <- all_owned_view, Hage.
+  rewrite andb_false_r.
+  repeat match type of H with
+  | (if ?c then Invalid else _) = Valid => destruct c; [discriminate|]
+  end.
+  unfold common_tail in *. rewrite Hty, Hnb in *.
+  rewrite Hpath, Hti, Hto'.
   rewrite !has_bound_view, Hfrom, Hto, <- !has_bound_view.
   repeat match type of H with
   | (if ?c then Invalid else _) = Valid => destruct c; [discriminate|]
@@ -564,7 +600,8 @@ Definition bslip (pk amount key : N) (sp : bool) (bid ord idx : N) : aslip :=
 Definition oslip (pk amount ty : N) : aslip := mkSlip pk amount ty 0 false 0 0 0 false amount 0 0 0.
 (* the third output of a new NFT: public key field = (block id, tx ordinal, slip index) of the input *)
 Definition uslip (pk bid ord idx : N) : aslip := mkSlip pk 0 SBound 0 false 0 0 0 false 0 bid ord idx.
-Definition env0 : env := mkEnv 0 true.
+(* no staking requirement, overflow checks on, tip = block 3, genesis period 100 *)
+Definition env0 : env := mkEnv 0 true 3 100 1.
 
 (* ---------- concrete witnesses used by props/C01.v ---------- *)
 (* listed finding bound-foreign-input: the attacker (key 5) transfers an NFT of his
